@@ -2,8 +2,10 @@
     decodes back to exactly itself.
 
     Families proved here: IPv6 unicast, VPNv4, VPNv6, IPv4/IPv6 labeled unicast (MP_REACH).
-    IPv4 flowspec: model + correspondence + oracle; theorem for the operator lists only
-    (C07_flowspec_operators_roundtrip_partial; the full statement is C07_flowspec_roundtrip_statement).
+    IPv4 flowspec: model + correspondence + oracle; theorems for the operator lists
+    (C07_flowspec_operators_roundtrip_partial) and for the rule length prefix at every body length
+    1..4095, both forms (the C07_flowspec_length_prefix theorems); the full statement is
+    C07_flowspec_roundtrip_statement.
     EVPN route types 1-4: not modelled; the harness runs the round-trip oracle on the
     implementation only.
 
@@ -19,7 +21,8 @@
     widths and the 2-octet rule length as by build/proposed/c08-flowspec-framing.diff. *)
 From YV Require Import lib.Base gen.Consts model.YMp model.YPrefix6 model.YLabel model.YVpn model.YLu
   model.YFlow4
-  proof.MpPrefix6Proofs proof.MpLabelProofs proof.MpVpnProofs proof.MpLuProofs proof.MpFlow4Proofs.
+  proof.MpPrefix6Proofs proof.MpLabelProofs proof.MpVpnProofs proof.MpLuProofs proof.MpFlow4Proofs
+  proof.MpFlow4Frame.
 
 (** ------------------------------------------------------------------ IPv6 unicast *)
 
@@ -277,6 +280,59 @@ Proof.
   split; [|vm_compute; reflexivity].
   repeat (constructor; [split; reflexivity|]). constructor.
 Qed.
+
+(** proved part: the rule length prefix (RFC 8955 4.1: one octet below 240, 0xfnnn from 240 to
+    4095).  For EVERY component string of 1..4095 octets the prefix written by construct_nlri
+    ([fs_frame]) is read back by the MP_REACH / MP_UNREACH NLRI loop ([fs_unframe]) as exactly
+    those octets with nothing left over; the written size is body + 1 below 240 and body + 2
+    from 240 on; below 240 this also holds in front of any following octets.  (From 240 on only
+    for the last rule of the attribute: C07_flowspec_length_prefix_refuted_long_rule_not_last.)
+    The threshold 240 / maximum 4095 of the model are tied to ipv4_flowspec.py by the
+    correspondence cases with bodies of 239, 240, 241, 4095 and 4096 octets (harness c07_flow4). *)
+Theorem C07_flowspec_length_prefix_roundtrip : forall b, 1 <= len b <= 4095 ->
+  exists w, fs_frame b = Ok w /\
+            length w = (length b + (if (len b <? 240)%N then 1 else 2))%nat /\
+            fs_unframe w = (b, []) /\
+            (len b < 240 -> forall rest, fs_unframe (w ++ rest) = (b, rest)).
+Proof. exact fs_frame_roundtrip. Qed.
+Print Assumptions C07_flowspec_length_prefix_roundtrip.
+
+(** the first octet tells the reader which form was written, at every body length *)
+Theorem C07_flowspec_length_prefix_form : forall b w, 1 <= len b <= 4095 -> fs_frame b = Ok w ->
+  exists l0 r, w = l0 :: r /\ ((l0 / 16 =? 15) = negb (len b <? 240)).
+Proof. exact fs_frame_first_octet. Qed.
+Print Assumptions C07_flowspec_length_prefix_form.
+
+(** nothing is emitted for an empty body or one above 4095 octets *)
+Theorem C07_flowspec_length_prefix_out_of_range : forall b,
+  len b = 0 \/ 4095 < len b -> fs_frame b = Exc.
+Proof. exact fs_frame_out_of_range. Qed.
+Print Assumptions C07_flowspec_length_prefix_out_of_range.
+
+(** every rule the model of construct_nlri emits is its component octets behind such a prefix *)
+Theorem C07_flowspec_rule_framed : forall f w, fs_construct_nlri f = Ok w ->
+  exists body, 1 <= len body <= 4095 /\ fs_frame body = Ok w /\ fs_unframe w = (body, []) /\
+               (len body < 240 -> forall rest, fs_unframe (w ++ rest) = (body, rest)).
+Proof. exact fs_construct_nlri_framed. Qed.
+Print Assumptions C07_flowspec_rule_framed.
+
+Example C07_flowspec_length_prefix_nonvacuous :
+  fs_frame (repeat 7 239) = Ok (239 :: repeat 7 239) /\
+  fs_frame (repeat 7 240) = Ok (240 :: 240 :: repeat 7 240) /\
+  fs_frame (repeat 7 241) = Ok (240 :: 241 :: repeat 7 241) /\
+  fs_frame (repeat 7 4095) = Ok (255 :: 255 :: repeat 7 4095) /\
+  fs_frame (repeat 7 4096) = Exc /\
+  fs_unframe (240 :: 240 :: repeat 7 240) = (repeat 7 240, []).
+Proof. repeat split; vm_compute; reflexivity. Qed.
+
+(** defect (known finding C07-flowspec-nlri-240-octets-or-longer): a rule of 240 octets that is
+    not the last one swallows the rule after it (0xf000 | length is used unmasked) *)
+Theorem C07_flowspec_length_prefix_refuted_long_rule_not_last :
+  len w_body240 = 240 /\
+  exists w, fs_frame w_body240 = Ok w /\
+            fs_unframe (w ++ [3; 3; 129; 17]) = (w_body240 ++ [3; 3; 129; 17], []).
+Proof. exact fs_frame_long_not_last_refuted. Qed.
+Print Assumptions C07_flowspec_length_prefix_refuted_long_rule_not_last.
 
 (** defects *)
 Theorem C07_flowspec_refuted_prefix_length_zero : fs_construct_prefix (0, 0) = Exc.
